@@ -51,7 +51,7 @@ CLAIMS = {
                 'null-tested before use; user-attribute indexing is guarded; slots are allocated only at the tabled, budgeted sites '
                 '(decMax, growth refusal, post-pass size test, extendLength accounting); limit constants equal the extents they index; '
                 'recursion depth cut-offs dominate the recursive calls; the per-pass loop counter is consulted on the advance path and '
-                'forced >= 1.  NOT decided: float-derived indexing in the colliders, the work bound as a number, leak-freedom.  Also decided: the number of SlotMap::pushSlot calls on any path through Pass::runFSM, computed from its constant-initialised counter by a bounded abstract execution, fits the slot map; the attach.to slot-map index in Slot::setAttr is unsigned (or bounded below) and below map.size().',
+                'forced >= 1.  NOT decided: float-derived indexing in the colliders, the work bound as a number, leak-freedom.  Also decided: the number of SlotMap::pushSlot calls on any path through Pass::runFSM, computed from its constant-initialised counter by a bounded abstract execution, fits the slot map; the attach.to slot-map index in Slot::setAttr is unsigned (or bounded below) and below map.size(). Round 3: MAPWINDOW (a pointer formed as slotMap().begin() + signed offset is dominated by a test that this very difference is >= 0, compared as linear forms so that the arrangement of terms or a hoisted local does not matter; a comparison made after a conversion to unsigned does not count).',
         'note': 'Trusted: clang 14 CFG/constant folder, tools/grfacts, rules/vmsym.py, rules/dom.py, and the hand-confirmed tables in '
                 'rules/c02.py (allowed newSlot/extendLength callers with reasons).  Allocation failure is outside the quantifier.',
         'technique': 'CFG dominance (edge-cut) + path rules + who-may-call over resolved callees + symbolic stack-offset analysis of opcode handlers',
@@ -65,7 +65,7 @@ CLAIMS = {
                 'owned memory and on globals must be empty; writes through API parameters must be to documented out-parameters.  Side '
                 'rules: no mutable global or guarded static reachable, SHARED classes hold no pointer to per-call objects, features are '
                 'copied by value, const-cast inventory.  Because a history can influence a later call only through such memory, this '
-                'covers all API interleavings.  Equality of two result dumps is NOT decided (runtime values).  LAZYFILL: each lazily filled cell receives only its loader\'s result, and the filling call returns the cell it filled (not a differently converted or substitute value).',
+                'covers all API interleavings.  Equality of two result dumps is NOT decided (runtime values).  LAZYFILL: each lazily filled cell receives only its loader\'s result, and the filling call returns the cell it filled (not a differently converted or substitute value). Round 3: a lazily filled accessor does not return a local that was set from the cell before the fill ran (stale-local return).',
         'note': 'Trusted: clang 14 code generator (-O0 + sroa/mem2reg) and typed pointers, tools/grir, rules/eff.py ownership lattice, the '
                 'SHARED / PER-CALL class partition (total: an unclassified struct is exit 2), the three-row lazy-cache table with reasons, '
                 'the out-parameter table.  The application must not modify the table bytes it lent to the face.',
@@ -94,7 +94,7 @@ CLAIMS = {
                 'table-derived pointer is stored into memory that outlives the table; (5) the destructor of every class frees each of the '
                 '45 allocator-assigned fields on every path and every function-local allocation reaches a release or hand-over on every '
                 'non-allocation-failure path (the failed gr_make_face exits); (6) the C09 rules that no table is asked for after '
-                'gr_face_preloadAll.  Allocator balance as a number is NOT decided.  decompress() releases the borrowed table before it sets the ownership flag.',
+                'gr_face_preloadAll.  Allocator balance as a number is NOT decided.  decompress() releases the borrowed table before it sets the ownership flag. Round 3: OPSFLOW (every entry point that takes the client\'s gr_face_ops hands that whole struct on to Face::Face; re-packing single members drops release_table).',
         'note': 'Trusted: clang 14 (front end, code generator), tools/grfacts, tools/grir, rules/c16.py, rules/noescape.py, rules/dom.py; tabled '
                 'exceptions with reasons (placement-new Code objects, GlyphCache box block).  Allocation failure is outside the quantifier.',
         'technique': 'compile-fail witness + CFG typestate/must-pass rules + who-may-call + interprocedural pointer-taint (escape) analysis on LLVM IR',
@@ -106,7 +106,7 @@ CLAIMS = {
                 'instantiated only with iteration/lookup functions of one format, the (plane, format) routing is identical -- DirectCmap '
                 'splits on usv > 0xFFFF, CachedCmap\'s two fill passes are called with windows (0xFFFF, 0x10FFFF) for format 12 and '
                 '(0, 0xFFFF) for format 4 and store only inside the window -- the pseudo-glyph fallback is consulted exactly when the '
-                'cmap returned 0 at both users, and the cached block table is indexed only under the bounds matching its allocation.  NARROWREAD (shared with C01): no table field, e.g. a pseudo-glyph code point, is truncated when stored.',
+                'cmap returned 0 at both users, and the cached block table is indexed only under the bounds matching its allocation.  NARROWREAD (shared with C01): no table field, e.g. a pseudo-glyph code point, is truncated when stored. Round 3: NEXTINRANGE (each cmap iterator returns c + 1 as \'next in the same range\' only under a dominating strict test end > c, as linear forms).',
         'note': 'Trusted: clang 14 CFG, tools/grfacts, rules/c13.py, rules/dom.py.  The binary-search / group-scan arithmetic inside '
                 'TtfUtil::CmapSubtable4Lookup/12Lookup/NextCodepoint is value-level and out of reach (a seeded off-by-one there is a recorded miss).',
         'technique': 'sibling cross-check of two implementations (call arguments, guards, selectors) over AST/CFG facts + dominance rules',
@@ -119,7 +119,7 @@ CLAIMS = {
                 'the link fields, newSlot returns slots with null links, slot-count accounting (extendLength exactly once per '
                 'INSERT/DELETE), indices assigned on one traversal between the substitution and positioning runs and by nobody else, the '
                 'loader rejects INSERT/DELETE once indices exist, the pseudo real-glyph clamp on every path.  NOT decided: finiteness of '
-                'positions, glyph-id validity beyond the clamp (font data), reverseSlots beyond two loop iterations per loop.  reverseSlots is executed symbolically to a depth that covers its diacritic-run branch, with two further rules: a redirected link must not leave the old neighbour pointing back (R8) and every relinked slot stays on the forward chain from the head (R9).',
+                'positions, glyph-id validity beyond the clamp (font data), reverseSlots beyond two loop iterations per loop.  reverseSlots is executed symbolically to a depth that covers its diacritic-run branch, with two further rules: a redirected link must not leave the old neighbour pointing back (R8) and every relinked slot stays on the forward chain from the head (R9). Round 3: PUT_COPY identity (after the whole-slot memcpy into the live slot every path executes firstChild(NULL), nextSibling(NULL) -- before the slot joins its parent\'s child list --, markCopied(false) and markDeleted(false)); WIDTH (no store into Slot::m_index / Segment::m_numGlyphs, and no accessor return of them, goes through an implicit narrowing conversion).',
         'note': 'Trusted: clang 14 CFG, tools/grfacts, rules/linksym.py (symbolic link heap, pre-state axioms), rules/dom.py, the tabled mutator '
                 'set with reasons.  Paths are complete up to two visits per block; deeper iterations are not explored.',
         'technique': 'symbolic shape analysis (abstract link-heap execution per CFG path) + who-may-write + dominance/ordering rules',
@@ -146,7 +146,7 @@ CLAIMS = {
                 'absent, refuse self, unlink exactly the removed node); freeSlot leaves its parent and orphans only children that name it as '
                 'parent; PUT_COPY refuses attached slots and rebuilds the links; TEMP_COPY marks its copy; finalisation rebuilds the base '
                 'chain over bases only.  The induction itself (that these steps compose to a forest for every rule sequence) is argued in '
-                'DESIGN.md and not mechanised.  TEMP_COPY marks its copy after the whole-slot copy (the mark would otherwise be overwritten).',
+                'DESIGN.md and not mechanised.  TEMP_COPY marks its copy after the whole-slot copy (the mark would otherwise be overwritten). Round 3: PUT_COPY identity on every path (see C03); removeChild completeness (on every path that reports \'not a child\' because the walk ran off the end of the sibling chain, each chain node it passed was compared with the slot to remove).',
         'note': 'Trusted: clang 14 CFG, tools/grfacts, rules/c04.py, rules/linksym.py, rules/dom.py, the tabled writer sets.',
         'technique': 'dominance-fact rules + symbolic execution of list primitives over an abstract heap + who-may-write tables',
     },
@@ -168,7 +168,7 @@ CLAIMS = {
                 'as id and the code-unit offset c - base; every one of the 20 call sites of the association setters takes a closed-form '
                 'argument (another slot\'s before/after/original, the default original, the tabled accumulators) so no arithmetic is done on '
                 'character indices; the char-info accessor keeps its bounds test; plus the shared rules: counts set from the characters '
-                'consumed (C12), iterator step bound (C11), no list mutation after slot numbering (C03).',
+                'consumed (C12), iterator step bound (C11), no list mutation after slot numbering (C03). Round 3: GAPFILL (each extension loop of associateChars is guarded by the unset-test of the field it fills and by nothing else about the character), EDGEFILL (some store of char.after sits in a walk going backwards from Slot::before() or over all characters, and symmetrically for char.before: leading / trailing unclaimed runs get both sides -- this rule reported defect F11 on the pre-fix tree), WIDTH (index-carrying fields of Slot, CharInfo and the character count are never the target of an implicit narrowing conversion).',
         'note': 'Trusted: clang 14 CFG, tools/grfacts, rules/c05.py and the rules it shares.  The accumulators of ASSOC and associateChars are '
                 'tabled with reasons; associateChars\' range arithmetic itself is value-level.',
         'technique': 'argument-provenance (closed-form) rule over resolved call sites + CFG path rules',
@@ -192,7 +192,7 @@ CLAIMS = {
                 'the passes, the VM or the colliders has a Font parameter; (2) Font::scale() is read only by the five tabled functions; '
                 '(3) a flow-sensitive dimension analysis (design units vs pixels, the scale converts) of the float arithmetic of those five '
                 'functions on every font != NULL path: no sum, difference, comparison or store mixes the two units, nothing is scaled twice '
-                'or divided by the scale in the wrong direction -- the structural condition for linear scaling.  gr_slot_advance_X/Y return a pixel value on every path on which a font is present.',
+                'or divided by the scale in the wrong direction -- the structural condition for linear scaling.  gr_slot_advance_X/Y return a pixel value on every path on which a font is present. Round 3: a pixel-unit value is never compared with a non-zero absolute threshold (the outcome would flip with the scale).',
         'note': 'Trusted: clang 14 CFG, tools/grfacts, rules/c15.py, rules/units.py (unit tables keyed by resolved fields / getters, unknown '
                 'units are compatible with everything so only definite mixes are reported; at most 4000 paths per function).',
         'technique': 'argument-provenance rule + who-may-call + flow-sensitive dimension (unit) analysis over CFG paths',
@@ -205,7 +205,7 @@ CLAIMS = {
                 'maximum computed from them, where the 16-bit setting value is compared after zero-extension; the constructor moves the bit '
                 'offset to the next chunk on every path on which a field would straddle; both clone sites go through the copy constructor; '
                 'the Sill entry is selected by tag equality with the defaults as fallback; the setting-index test; and the shared '
-                'tag-normalisation rule (space- and zero-padded tags).',
+                'tag-normalisation rule (space- and zero-padded tags). Round 3: the shift m_bits of a FeatureRef is computed after the chunk bump and before the advance of the running offset; LENUNIT (getName reports the length in units written into the buffer it returns, for every encoding branch); IDORDER (no ordering of 32-bit ids by the sign of their wrapped difference).',
         'note': 'Trusted: clang 14 CFG and type checker (cast chains), tools/grfacts, rules/c18.py, rules/tagnorm.py, rules/dom.py.',
         'technique': 'CFG failure-atomicity / dominance rules + cast-chain typing + must-pass on the chunk bump + sibling tag-normalisation rule',
     },
@@ -216,7 +216,7 @@ CLAIMS = {
                 'glyphs through Loader::read_glyph / read_box and are the only writers of the cache cells; cells of the lazily filled cache '
                 'are read only by the loader and the tabled accessors that run on already-loaded glyphs (a predicate evaluated before the load '
                 'must not look at them); the file face is distinguished from a callback face only for ownership; and the shared C13 rules '
-                'that the direct and the cached cmap select sub-tables and route planes identically.  OPTFLOW also decides which parameter of each face-construction entry point reaches the options word (exactly faceOptions).',
+                'that the direct and the cached cmap select sub-tables and route planes identically.  OPTFLOW also decides which parameter of each face-construction entry point reaches the options word (exactly faceOptions). Round 3: OPSSIZE (Face::m_ops is zeroed and then filled with min(sizeof m_ops, ops.size) bytes, nothing else writes it), BOXPARITY (whether the lazy loader creates a glyph\'s box does not depend on values the loader reported for that one glyph), NEXTINRANGE via C13.',
         'note': 'Trusted: clang 14 CFG, tools/grfacts, rules/c10.py, rules/c13.py.  Value-level lookup arithmetic inside TtfUtil is out of reach.',
         'technique': 'parameter taint (use classification) + sibling / who-may-call / who-may-read tables over resolved declarations',
     },
@@ -240,7 +240,7 @@ CLAIMS = {
                 'fact the parser used to rely on; the per-opcode operand validations of the bytecode loader (68, the class-id / user-attribute / '
                 'slot-reference ones being load-bearing for run-time sinks); no failure result is dropped (121 Error::test and load-status call '
                 'sites); the decoder recursion is cut by the nested-context rejection and Code::failure invalidates the code; constant coherence '
-                '(NUMCONTEXTS, attrid extent, gralloc overflow test); and the shared ownership / borrow rules for the failed-load exits (C16).  Also decided: every branch on which an Error::test fired is a tabled rejection whatever the function then returns; no big-endian table field is stored into a narrower integer (NARROWREAD census); Face::Table::decompress releases the borrowed table while the ownership flag still describes it.',
+                '(NUMCONTEXTS, attrid extent, gralloc overflow test); and the shared ownership / borrow rules for the failed-load exits (C16).  Also decided: every branch on which an Error::test fired is a tabled rejection whatever the function then returns; no big-endian table field is stored into a narrower integer (NARROWREAD census); Face::Table::decompress releases the borrowed table while the ownership flag still describes it. Round 3: NameTable::getName is part of the rejection inventory; a bound hoisted into a local narrower than the arithmetic it holds is spelled as the truncated value (narrowN(...)) and no longer matches the tabled rejection.',
         'note': 'Trusted: clang 14 CFG, tools/grfacts, rules/validators.py, rules/opchecks.py, rules/c01.py, rules/dom.py, and the two frozen tables, '
                 'which are regenerated only after reading the diff.  A renamed operand is exit 2 (re-confirm), never a pass.  Parser loop termination '
                 'and arithmetic overflow in size expressions are not decided.',
